@@ -495,6 +495,9 @@ func (m *Model) applyCreate(op Op, now int64) Outcome {
 		}
 		var a acc
 		m.checkPersonFields(&a, id, op.Name, op.Nick, op.Roles, op.Dept, op.Mentor, op.Groups)
+		if tagsNested(op.Tags) {
+			a.add("tags-nested", EcAny) // the tags map takes scalar values only
+		}
 		if op.IsSys && !op.Sys {
 			a.add("sys-create", EcAny)
 		}
@@ -589,6 +592,9 @@ func (m *Model) applyCreate(op Op, now int64) Outcome {
 
 func (m *Model) applyUpdate(op Op, now int64) Outcome {
 	id := op.Id
+	if id == "" {
+		return reject("blank-id", EcAny)
+	}
 	switch op.S {
 	case StDepts:
 		cur, ok := m.Depts[id]
@@ -692,6 +698,9 @@ func (m *Model) applyUpdate(op Op, now int64) Outcome {
 					rejAdd("nick-dup", EcDup)
 				}
 			}
+		}
+		if op.updates("tags") && tagsNested(op.Tags) {
+			rejAdd("tags-nested", EcAny)
 		}
 		if !eqStrs(n.Roles, p.Roles) {
 			for _, r := range n.Roles {
@@ -818,6 +827,9 @@ func (m *Model) applyUpdate(op Op, now int64) Outcome {
 
 func (m *Model) applyDelete(op Op) Outcome {
 	id := op.Id
+	if id == "" {
+		return reject("blank-id", EcAny)
+	}
 	switch op.S {
 	case StDepts:
 		if _, ok := m.Depts[id]; !ok {
@@ -1281,4 +1293,15 @@ func (m *Model) folderBelow(root, x string) bool {
 		x = *par
 	}
 	return true // (cannot happen: the model never holds a cycle)
+}
+
+// tagsNested: a value of the tags map is itself a map or a list (an unusable value: the store refuses it).
+func tagsNested(t map[string]any) bool {
+	for _, v := range t {
+		switch v.(type) {
+		case map[string]any, []any:
+			return true
+		}
+	}
+	return false
 }
